@@ -13,6 +13,8 @@ import Ptn.C05.ProjectedTreeAll
 import Ptn.C05.ProjectedTreeLink
 import Ptn.C05.ProjectedTreeTwo
 import Ptn.C05.WholeProgram
+import Ptn.C05.WholeProgramLink
+import Ptn.C05.WholeProgramTwo
 /-! Property theorems for C05.  `Core.lean`: duration totals of the three schedules for arbitrary
 segment lists (per segment edge, under the hypotheses `Nodup` / last-two-adjacent).  `Tree.lean`:
 the same totals for every well-formed tree with the segments computed from the C17 model of the
@@ -632,6 +634,113 @@ example : (chCtx.plug (Tree.node 2 [])).ids.Nodup ∧
          ((gKetT 1 (chNode 1)).legs, chKv 1), ((gOpT 1 (chNode 1)).legs, chOv 1), ((gBraT 1 (chNode 1)).legs, chBv 1),
          ((gKetT 0 (chNode 0)).legs, chKv 0), ((gOpT 0 (chNode 0)).legs, chOv 0),
          ((gBraT 0 (chNode 0)).legs, chBv 0)] := rfl
+    rw [h1, h2]
+    classical
+    rw [List.perm_iff_count]
+    intro z
+    simp only [List.count_cons, List.count_nil]
+    omega
+
+/-! ### `link_heff_whole_program` (builder B47): the chain 0 — 1 — 2, link on the LOWER edge 1 — 2; node tensors, cache and
+the split `lk2E`, `chH`, `lk2B` as above — the leaves of the split are exactly `linkLeaves` (ALL node tensors) -/
+
+/-- every hypothesis of `link_heff_whole_program` (`c = chCtx`, `p = 1`, `t = node 2 []`) and of its value clause -/
+example : chCtx.parent = some 1 ∧ (chCtx.plug (Tree.node 2 [])).ids.Nodup ∧
+    (∀ e ∈ Tree.info none (chCtx.plug (Tree.node 2 [])), (chOpKids e.1).Perm e.2.2) ∧
+    KetLocal chKv (chCtx.plug (Tree.node 2 [])) ∧ OpLocalK chOv chOpKids (chCtx.plug (Tree.node 2 [])) ∧
+    BraLocalK chBv (chCtx.plug (Tree.node 2 [])) ∧
+    lk2Cache (1, (Tree.node 2 []).id) = some (gBlock 1 (Tree.node 2 []).id chCtx.blockBinds) ∧
+    lk2Cache ((Tree.node 2 []).id, 1) = some (soBlock (Tree.node 2 []) 1) ∧
+    lk2E.WF ∧ chH.WF ∧ lk2B.WF ∧
+    (lk2E.leaves ++ (chH.leaves ++ lk2B.leaves)).Perm (linkLeaves chOpKids chKv chOv chBv chCtx (Tree.node 2 [])) ∧
+    (unordL lk2E.binds).Perm
+      (unordL ((chCtx.compEdges ++ (Tree.node 2 []).edges).map fun e => ketEdge e.1 e.2)) ∧
+    (unordL chH.binds).Perm (unordL ((chCtx.plug (Tree.node 2 [])).edges.map fun e => opEdge e.1 e.2)) ∧
+    (unordL lk2B.binds).Perm
+      (unordL ((chCtx.compEdges ++ (Tree.node 2 []).edges).map fun e => braEdge e.1 e.2)) ∧
+    (∀ n ∈ chCtx.ids ++ (Tree.node 2 []).ids, Leg.gKetPhys n ∈ lk2E.free ∧ Leg.gOpIn n ∈ chH.free ∧
+      Leg.gOpOut n ∈ chH.free ∧ Leg.gBraPhys n ∈ lk2B.free) := by
+  have hW : chW2.SWF := demoLeaf_swf _ (by decide)
+  have hE0 : chE.SWF := ⟨demoLeaf_swf _ (by decide), demoLeaf_swf _ (by decide), by decide, by decide, by decide,
+    by decide⟩
+  have hB0 : chB.SWF := ⟨demoLeaf_swf _ (by decide), demoLeaf_swf _ (by decide), by decide, by decide, by decide,
+    by decide⟩
+  have hE : lk2E.SWF := ⟨hE0, demoLeaf_swf _ (by decide), by decide, by decide, by decide, by decide⟩
+  have hB : lk2B.SWF := ⟨hB0, demoLeaf_swf _ (by decide), by decide, by decide, by decide, by decide⟩
+  have hH : chH.SWF := ⟨⟨demoLeaf_swf _ (by decide), demoLeaf_swf _ (by decide), by decide, by decide, by decide,
+    by decide⟩, hW, by decide, by decide, by decide, by decide⟩
+  refine ⟨rfl, by decide, ?_, ?_, ?_, ?_, by decide, by decide, hE.wf, hH.wf, hB.wf, ?_, by decide, by decide,
+    by decide, by decide⟩
+  · intro e he
+    rcases chInfo e he with rfl | rfl | rfl <;> decide
+  · intro e he
+    rcases chInfo e he with rfl | rfl | rfl <;> exact demoT_local _
+  · intro e he
+    rcases chInfo e he with rfl | rfl | rfl <;> exact demoT_local _
+  · intro e he
+    rcases chInfo e he with rfl | rfl | rfl <;> exact demoT_local _
+  · have h1 : lk2E.leaves ++ (chH.leaves ++ lk2B.leaves) =
+        [((gKetT 0 (chNode 0)).legs, chKv 0), ((gKetT 1 (chNode 1)).legs, chKv 1), ((gKetT 2 (chNode 2)).legs, chKv 2),
+         ((gOpT 0 (chNode 0)).legs, chOv 0), ((gOpT 1 (chNode 1)).legs, chOv 1), ((gOpT 2 (chNode 2)).legs, chOv 2),
+         ((gBraT 0 (chNode 0)).legs, chBv 0), ((gBraT 1 (chNode 1)).legs, chBv 1),
+         ((gBraT 2 (chNode 2)).legs, chBv 2)] := rfl
+    have h2 : linkLeaves chOpKids chKv chOv chBv chCtx (Tree.node 2 []) =
+        [((gKetT 1 (chNode 1)).legs, chKv 1), ((gOpT 1 (chNode 1)).legs, chOv 1), ((gBraT 1 (chNode 1)).legs, chBv 1),
+         ((gKetT 0 (chNode 0)).legs, chKv 0), ((gOpT 0 (chNode 0)).legs, chOv 0), ((gBraT 0 (chNode 0)).legs, chBv 0),
+         ((gKetT 2 (chNode 2)).legs, chKv 2), ((gOpT 2 (chNode 2)).legs, chOv 2),
+         ((gBraT 2 (chNode 2)).legs, chBv 2)] := rfl
+    rw [h1, h2]
+    classical
+    rw [List.perm_iff_count]
+    intro z
+    simp only [List.count_cons, List.count_nil]
+    omega
+
+/-! ### `two_site_heff_whole_program` / `…_up` (builder B47): the chain 0 — 1 — 2 — 3, pair 1 — 2, cache `tsCache`; the split
+`tsE`, `tsH`, `tsB` consists of exactly `pairLeaves` (all operator tensors, ket / bra tensors of the nodes 0 and 3) -/
+
+def ts4Node (n : Nat) : Node :=
+  if n = 0 then ⟨none, [1]⟩ else if n = 1 then ⟨some 0, [2]⟩ else if n = 2 then ⟨some 1, [3]⟩ else ⟨some 2, []⟩
+def ts4OpKids (n : Nat) : List Nat := (ts4Node n).children
+def ts4Kv (n : Nat) : Asg Leg → Int := demoT (gKetT n (ts4Node n)).legs
+def ts4Ov (n : Nat) : Asg Leg → Int := demoT (gOpT n (ts4Node n)).legs
+def ts4Bv (n : Nat) : Asg Leg → Int := demoT (gBraT n (ts4Node n)).legs
+
+theorem ts4Info (e : Nat × Option Nat × List Nat)
+    (he : e ∈ Tree.info none ((Ctx.frame 1 [] [] tsUp).plug (Tree.node 2 [Tree.node 3 []]))) :
+    e = (0, none, [1]) ∨ e = (1, some 0, [2]) ∨ e = (2, some 1, [3]) ∨ e = (3, some 2, []) := by
+  simpa [tsUp, Ctx.plug, Tree.info, Tree.infoL, Tree.id] using he
+
+/-- the hypotheses of `two_site_heff_whole_program` (and of `…_up`) that are new with respect to
+`two_site_heff_projected_tree` (whose hypotheses are shown above), and the split of the value clause -/
+example : (∀ e ∈ Tree.info none ((Ctx.frame 1 [] [] tsUp).plug (Tree.node 2 [Tree.node 3 []])),
+      (ts4OpKids e.1).Perm e.2.2) ∧
+    KetLocal ts4Kv ((Ctx.frame 1 [] [] tsUp).plug (Tree.node 2 [Tree.node 3 []])) ∧
+    OpLocalK ts4Ov ts4OpKids ((Ctx.frame 1 [] [] tsUp).plug (Tree.node 2 [Tree.node 3 []])) ∧
+    BraLocalK ts4Bv ((Ctx.frame 1 [] [] tsUp).plug (Tree.node 2 [Tree.node 3 []])) ∧
+    ts4OpKids 1 = [2] ∧ ts4OpKids 2 = [3] ∧
+    (tsE.leaves ++ (tsH.leaves ++ tsB.leaves)).Perm
+      (pairLeaves ts4OpKids ts4Kv ts4Ov ts4Bv tsUp 1 2 [] [] [Tree.node 3 []]) := by
+  refine ⟨?_, ?_, ?_, ?_, rfl, rfl, ?_⟩
+  · intro e he
+    rcases ts4Info e he with rfl | rfl | rfl | rfl <;> decide
+  · intro e he
+    rcases ts4Info e he with rfl | rfl | rfl | rfl <;> exact demoT_local _
+  · intro e he
+    rcases ts4Info e he with rfl | rfl | rfl | rfl <;> exact demoT_local _
+  · intro e he
+    rcases ts4Info e he with rfl | rfl | rfl | rfl <;> exact demoT_local _
+  · have h1 : tsE.leaves ++ (tsH.leaves ++ tsB.leaves) =
+        [((gKetT 0 (ts4Node 0)).legs, ts4Kv 0), ((gKetT 3 (ts4Node 3)).legs, ts4Kv 3),
+         ((gOpT 0 (ts4Node 0)).legs, ts4Ov 0), ((gOpT 1 (ts4Node 1)).legs, ts4Ov 1),
+         ((gOpT 2 (ts4Node 2)).legs, ts4Ov 2), ((gOpT 3 (ts4Node 3)).legs, ts4Ov 3),
+         ((gBraT 0 (ts4Node 0)).legs, ts4Bv 0), ((gBraT 3 (ts4Node 3)).legs, ts4Bv 3)] := rfl
+    have h2 : pairLeaves ts4OpKids ts4Kv ts4Ov ts4Bv tsUp 1 2 [] [] [Tree.node 3 []] =
+        [((gOpT 1 (ts4Node 1)).legs, ts4Ov 1), ((gOpT 2 (ts4Node 2)).legs, ts4Ov 2),
+         ((gKetT 0 (ts4Node 0)).legs, ts4Kv 0), ((gOpT 0 (ts4Node 0)).legs, ts4Ov 0),
+         ((gBraT 0 (ts4Node 0)).legs, ts4Bv 0),
+         ((gKetT 3 (ts4Node 3)).legs, ts4Kv 3), ((gOpT 3 (ts4Node 3)).legs, ts4Ov 3),
+         ((gBraT 3 (ts4Node 3)).legs, ts4Bv 3)] := rfl
     rw [h1, h2]
     classical
     rw [List.perm_iff_count]
